@@ -611,5 +611,27 @@ _ROUND6 = {
 for _pid, _txt in _ROUND6.items():
     META[_pid]["rule"] = META[_pid]["rule"].rstrip() + " Round-6 additions: " + _txt
 
+# Dimensions added in round 7 of the mutation campaign (DESIGN.md §13)
+_ROUND7 = {
+    "C01": "caller-defined implementations of the safe extension trait AtomicAccess whose value type is narrower / wider than / as wide as the atomic it is accessed through (u8 through AtomicU64, u16 through AtomicU32, u64 through AtomicU8): at slice, region and guest level the access must fit the parent and be aligned FOR THE ATOMIC, and nothing beyond the parent (region tail, next region, canaries) may change.",
+    "C02": "region COUNTS around 2^16 (65 535, 65 536, 65 537, 65 600 regions in adjacent pairs separated by holes): every query at addresses around regions with small, middle and >= 2^16 indices, the last 80 regions, 200 random ones, and on a collection derived by removing a high-index region.",
+    "C03": "every 16th mmap-backed history ends with a fork(): the child, holding the same memory object, re-reads every region through read, write_all_volatile_to, read_obj and get_slice.copy_to and compares with the model.",
+    "C04": "HOST-address bits above 31: a container straddling an address whose low 32 bits are zero, lengths 1..17, 24, 33, local buffer ordinary / exactly 4 GiB above / 4 GiB +- 8 above; write, read, write_slice, write_obj/read_obj/load/get_ref of every width, compared through raw reads.",
+    "C06": "the hook grid is repeated with the guest bytes straddling an address whose low 32 bits are zero and the local buffer exactly 4 GiB (+-8, +1) above them (equal modulo 2^32 yet disjoint).",
+    "C08": "40 programs in which a range mark / mark_dirty / reset starts inside a 70-, 100- or 130-page bitmap (page count not a multiple of 64) and ends beyond it (by 1000 pages, up to usize::MAX) against harvests and clones: no result may show a page at or beyond the page count. Coverage floors are on programs explored to the end; the schedule-count floors are deliberately low, because the number of schedules depends on how many atomic steps the implementation takes.",
+    "C09": "bitmaps of 2^32-64, 2^32, 2^32+64 and 2^33 pages with EVERY page dirty at once (marked by 16 threads), harvested once: all pages reported, nothing left, in the release build and in the release build with overflow checks.",
+    "C10": "six regions that alias one another in host memory (raw windows over one mapping: same host address behind several guest addresses, nested, overlapping): every single removal, every second removal and re-insertion in the other order compared with the set model by guest range and region-object identity.",
+    "C11": "lock identity: after a.clone_from(&b) / b.clone_into(&mut a) (a having belonged to another memory) an updater holding the lock through one handle keeps an updater asking through the other outside (probe in both directions, the asker records whether the holder was still inside), and 600 counter-style replacements through both handles from four threads lose nothing.",
+    "C13": "adapters the library MAY provide: for 9 std sink types in 13 start states and 10 std source types (Cursor<Vec<u8>>, Cursor<Box<[u8]>>, Cursor<[u8; N]>, VecDeque<u8>, Sink, Empty, Repeat, Take, Chain, BufReader, BufWriter, LineWriter, Box<..>) the harness detects at compile time whether ReadVolatile / WriteVolatile is implemented and, if so, drives it side by side with std over four call scripts and compares results, bytes and final state (positions, contents).",
+    "C14": "the scripted-stream enumeration is repeated with the library built WITHOUT its default `rawfd` feature (build variant std-debug-norawfd).",
+    "C15": "Xen build: guest base + size against 2^64 for every mapping type (unix anonymous / file, foreign, grant on demand, grant in advance) x 3 sizes x 7 distances.",
+    "C16": "typed copy_from into a window whose length is not a multiple of the element size (or shorter than one element) from a buffer holding more elements than fit.",
+    "C17": "three on-demand grant regions of three different domains in one guest memory accessed alternately from one thread with windows of equal and different sizes: every map request must name the domain and pages of the region touched.",
+    "C18": "the Stdout sink in the states a long-running process leaves it in (unfinished line pending in std's buffer, reader of descriptor 1 gone, both): 7 zero-count entry points each return Ok and emit nothing on the descriptor (forked child with descriptor 1 on a pipe).",
+    "C20": "the monitor is also interpreted by Miri for a BIG-ENDIAN target (s390x-unknown-linux-gnu, sysroot built offline from rust-src) and for the host, on a thinned-out value set, including a varied first operation.",
+}
+for _pid, _txt in _ROUND7.items():
+    META[_pid]["rule"] = META[_pid]["rule"].rstrip() + " Round-7 additions: " + _txt
+
 # properties that are (currently) not claimed, with the reason recorded in MANIFEST.json
 NOT_CLAIMED = {}
